@@ -166,10 +166,9 @@ def plan_jp(tier, seed, props):
              item("objptr", NONE, 0.015 if q else 0.15, False, max=3),
              item("ptrdeep", NONE, 0.1 if q else 0.8, False, max=4),
              item("keyed_2", NONE, 0.3 if q else 1.0, False, max=3),
-             item("siblings", NONE, 0.4 if q else 1.0, False, max=3), item("kinds", NONE, 0.05 if q else 0.5, False, max=3),
-             item("intkeys", NONE, 0.5 if q else 1.0, False, max=3),
-             item("long_key", NONE, 0.08 if q else 0.8, False, max=2), item("long_root", NONE, 0.08 if q else 0.8, False, max=2),
-             item("wide", NONE, 0.5 if q else 1.0, False, max=2),
+             item("siblings", NONE, 0.2 if q else 1.0, False, max=3), item("kinds", NONE, 0.03 if q else 0.5, False, max=3),
+             item("intkeys", NONE, 0.3 if q else 1.0, False, max=3),
+             item("long_key", NONE, 0.04 if q else 0.8, False, max=1 if q else 2), item("wide", NONE, 0.25 if q else 1.0, False, max=1 if q else 2),
              # set-mode diffs: paths that must be refused
              item("scalarr_4_3", SET, 0.01 if q else 0.05, False, max=1), item("keyed_2", KEYS, 0.1 if q else 0.5, False, max=1),
              item("nestarr_2", MSET, 0.01 if q else 0.05, False, max=1)]
